@@ -8,7 +8,7 @@
    L1-L4 listed there. *)
 From Coq Require Import ZArith List Bool.
 From GoCoap Require Import Base.Bytes Gen.OptionDefs Gen.TcpConsts
-     Codec.Options Codec.Udp Codec.Tcp Codec.Pool Codec.Spec Codec.ProofsOpt Codec.ProofsC01 Codec.ProofsC02 Codec.ProofsC02Tcp.
+     Codec.Options Codec.Udp Codec.Tcp Codec.Pool Codec.Spec Codec.ProofsOpt Codec.ProofsC01 Codec.ProofsC02 Codec.ProofsC02Tcp Codec.ProofsC02Canon Codec.ModelPre Codec.ProofsPre.
 Import ListNotations.
 Open Scope Z_scope.
 
@@ -70,7 +70,7 @@ Print Assumptions C02_udp_canonical.
    2 + log2_up(|input| + 2) decoder calls from ANY capacity >= 0 -- 0 included, which
    looped forever before the repair (F8). *)
 Theorem C02_retry_terminates : forall dec bs,
-  (forall cap, dec cap bs = Err EOptCap -> cap < blen bs) -> (forall cap, dec cap bs <> Fuel) ->
+  (forall cap, 0 <= cap -> dec cap bs = Err EOptCap -> cap < blen bs) -> (forall cap, 0 <= cap -> dec cap bs <> Fuel) ->
   forall cap, 0 <= cap -> pool_decode (pool_fuel bs) dec cap bs <> Fuel.
 Proof. exact pool_decode_terminates. Qed.
 Print Assumptions C02_retry_terminates.
@@ -92,6 +92,7 @@ Theorem C02_tcp_header_agrees : forall bs, bytes_ok bs = true ->
   | RHdr hl tot code tok =>
       tcp_decode_header bs = Ok {| h_len := hl; h_mlen := tot; h_code := code; h_tok := tok |}
       /\ 0 <= hl <= tot /\ hl <= blen bs /\ tot < W32 /\ 0 <= code < 256
+      /\ 2 <= hl /\ blen tok <= 8 /\ bytes_ok tok = true
   end.
 Proof. exact tcp_header_agree. Qed.
 Print Assumptions C02_tcp_header_agrees.
@@ -122,12 +123,26 @@ Theorem C02_tcp_retry_terminates : forall bs cap, bytes_ok bs = true -> blen bs 
 Proof. exact tcp_retry_terminates. Qed.
 Print Assumptions C02_tcp_retry_terminates.
 
-(* Not proved for the stream coder (kept visible): C02_tcp_decode_wf / C02_tcp_canonical,
-     tcp_decode cap bs = Ok (m, n) -> wf_tcp messageMaxLen m = true
-   needs that the canonical re-encoding of the accepted body is not longer than the
-   frame it came from (|spec_body m| <= n < messageMaxLen); the per-field part follows
-   from ref_options_wf as for the datagram coder.  Canonicalisation of stream frames is
-   checked on every accepted case of the correspondence run (pclass class 5). *)
+(* Accepted stream frames are well-formed and canonicalise.  The bound n <= messageMaxLen
+   (frame at most 2 GiB - 64 KiB) is needed: the repaired DecodeHeader admits a 4-byte
+   extended length up to messageMaxLen, i.e. bodies up to messageMaxLen + 65805, while the
+   encoder (getHeader) only writes bodies < messageMaxLen -- for frames in that 64 KiB
+   window above 2 GiB the full statement is false of the model (observation, notes/C02.md;
+   not reproducible on the Go side without a 2 GiB buffer). *)
+Theorem C02_tcp_decode_wf_partial : forall cap bs m n, bytes_ok bs = true -> blen bs < W32 ->
+  tcp_decode cap bs = Ok (m, n) -> n <= messageMaxLen ->
+  wf_tcp messageMaxLen m = true /\ n <= blen bs /\ ref_tcp messageMaxLen bs = Some (m, n).
+Proof. exact tcp_decode_wf. Qed.
+Print Assumptions C02_tcp_decode_wf_partial.
+
+Theorem C02_tcp_canonical_partial : forall cap bs m n, bytes_ok bs = true -> blen bs < W32 ->
+  tcp_decode cap bs = Ok (m, n) -> n <= messageMaxLen ->
+  let bs' := spec_tcp_bytes m in
+  tcp_size m = Ok (blen bs') /\
+  tcp_encode_into m (repeat 0 (length bs')) = EOk (blen bs') bs' /\
+  forall cap', blen (m_opts m) <= cap' -> tcp_decode cap' bs' = Ok (m, blen bs').
+Proof. exact tcp_canonical. Qed.
+Print Assumptions C02_tcp_canonical_partial.
 
 (* No aliasing: UnmarshalWithDecoder hands the decoder a copy, so every view in the result
    points into the message's own buffer (this holds by construction of the model; the tie
@@ -135,6 +150,23 @@ Print Assumptions C02_tcp_retry_terminates.
 Theorem C02_no_alias : forall fuel dec cap data, snd (pool_unmarshal fuel dec cap data) = Owned.
 Proof. reflexivity. Qed.
 Print Assumptions C02_no_alias.
+
+(* Regression witnesses about the behaviour BEFORE the repairs (Codec/ModelPre.v): the
+   agreement / termination statements above are false of it, on the inputs bin/check reported. *)
+Theorem C02_F7_tkl_refuted : exists bs h, tcp_decode_header_pre bs = Ok h /\ ref_tcp_header messageMaxLen bs = RInvalid.
+Proof. exact F7_refuted. Qed.
+Print Assumptions C02_F7_tkl_refuted.
+Theorem C02_F16_wrap_refuted : exists bs h, tcp_decode_header_pre bs = Ok h /\ h_mlen h = 65810 /\
+  ref_tcp_header messageMaxLen bs = RInvalid /\ ref_tcp_header (2 ^ 40) bs = RHdr 6 4295033106 1 [].
+Proof. exact F16_refuted. Qed.
+Print Assumptions C02_F16_wrap_refuted.
+Theorem C02_F17_surplus_refuted : exists bs m n m', tcp_decode_pre 8 bs = Ok (m, n) /\ ref_tcp messageMaxLen bs = Some (m', 3) /\
+  m_pay m = [65; 66] /\ m_pay m' = [].
+Proof. exact F17_refuted. Qed.
+Print Assumptions C02_F17_surplus_refuted.
+Theorem C02_F8_retry_refuted : forall fuel, pool_decode_pre fuel udp_decode 0 [64; 1; 0; 1; 16] = Fuel.
+Proof. exact F8_refuted. Qed.
+Print Assumptions C02_F8_retry_refuted.
 
 (* non-vacuity: an accepted datagram with a dropped (illegal-length) option, option number 0,
    and a payload marker followed by nothing *)
